@@ -9,6 +9,7 @@ import CBV.Lemmas.C18Hex
 import CBV.Lemmas.C18Model
 import CBV.Lemmas.C18Data
 import CBV.Lemmas.C18Clear
+import CBV.Gen.TC18
 
 namespace CBV.C18
 
